@@ -256,3 +256,39 @@ def integer_tests_accept_numpy(ctx, rel, rule, min_tests=1):
                    c.lineno)
     ctx.floor(f"{rule}:{rel}", n, min_tests)
     return n
+
+
+def super_init_forwards(ctx, rel, rule, min_classes=1):
+    """a subclass constructor hands every parameter that its parent's constructor also has (same name) on to
+    super().__init__: leaving one out silently replaces the caller's value by the parent's default"""
+    s = ctx.src(rel)
+    n = 0
+    for cname, cnode in s.classes.items():
+        if "." in cname or not cnode.bases:
+            continue
+        init = s.funcs.get(f"{cname}.__init__")
+        if init is None:
+            continue
+        base = cnode.bases[0]
+        bname = base.id if isinstance(base, ast.Name) else None
+        pinit = s.funcs.get(f"{bname}.__init__") if bname else None
+        if pinit is None:
+            continue
+        mine = [a.arg for a in init.args.posonlyargs + init.args.args + init.args.kwonlyargs][1:]
+        theirs = [a.arg for a in pinit.args.posonlyargs + pinit.args.args][1:]
+        theirs_kw = [a.arg for a in pinit.args.kwonlyargs]
+        shared = [p for p in mine if p in theirs or p in theirs_kw]
+        sup = [c for c in ast.walk(init) if isinstance(c, ast.Call) and (call_name(c) or "") in ("super().__init__", f"{bname}.__init__")]
+        if not sup or not shared:
+            continue
+        n += 1
+        c = sup[0]
+        args = list(c.args[1:]) if (call_name(c) or "").startswith(bname or "\0") else list(c.args)
+        bound = dict(zip(theirs, args))
+        bound.update({k.arg: k.value for k in c.keywords if k.arg})
+        missing = [p for p in shared if not (isinstance(bound.get(p), ast.Name) and bound[p].id == p)]
+        ctx.ob(rule, rel, f"{cname}.__init__", f"super().__init__ receives {sorted(bound)}; shared parameters {shared}", not missing,
+               f"parameter `{missing[0] if missing else ''}` of {cname}() is not handed on to {bname}.__init__ (gets "
+               + ("its default there" if missing and missing[0] not in bound else "another value") + ")", c.lineno)
+    ctx.floor(f"{rule}:{rel}", n, min_classes)
+    return n
